@@ -419,6 +419,34 @@ func runCheck(prop, tier string) int {
 	for k := range modelAss {
 		assumptions = append(assumptions, k)
 	}
+	// engine lemmas (theorems of 64-bit arithmetic stated where the encoding needs them): re-proved from
+	// /verif/lemmas/<name>.smt2 by every solver that can in the thorough tier; in the quick tier they are
+	// listed as assumptions (the lemma text carries its own hypotheses, so an instance adds nothing
+	// beyond the theorem).
+	if thorough {
+		lemmaRe := regexp.MustCompile(`^engine lemma (\w+)`)
+		for k := range modelAss {
+			m := lemmaRe.FindStringSubmatch(k)
+			if m == nil {
+				continue
+			}
+			data, err := os.ReadFile(filepath.Join(g.verifDir, "lemmas", m[1]+".smt2"))
+			if err != nil {
+				fmt.Fprintf(os.Stderr, "govc: engine lemma %s: %v\n", m[1], err)
+				return 2
+			}
+			win, _, detail := decide(string(data), 600, false)
+			solverMs += win.ms
+			obligations++
+			samples = append(samples, obSample{"engine/lemma#" + m[1], win.status, win.solver, win.ms, "lemmas/" + m[1] + ".smt2", "engine lemma re-proved"})
+			if win.status == "unsat" {
+				discharged++
+			} else {
+				fmt.Fprintf(os.Stderr, "govc: engine lemma %s was not proved (%s %s): the encoding relies on an unproved fact\n", m[1], win.status, detail)
+				exit = 2
+			}
+		}
+	}
 	if g.constGlobalUsed {
 		assumptions = append(assumptions, "package-level variables that the loaded program only initialises with a constant and never assigns or takes the address of (e.g. the ua.Status* codes, which are vars) are read as that constant")
 	}
